@@ -250,6 +250,27 @@ def run(ctx):
                                   {"status": o["status"], "headers": oh, "body_len": len(o["body"]), "exc": o["exc"]},
                                   "%s is not the same response under a middleware" % name)
                 ctx.nontriv(("raw", name, tuple(stack)))
+        # errors after the response started ("errors before/after start"): what reached the client before the error is the same
+        for iface in ("wsgi", "asgi"):
+            pkg = recipes.pkg(iface)
+            for k in (0, 1, 2):
+                def build_inner(k=k, iface=iface, pkg=pkg):
+                    return pkg.StreamResponse(recipes.stream(iface, [b"c%d" % j for j in range(k)], raise_at=k), 200, {"X-S": "1"})
+                bare = observe(iface, build_inner())
+                for stack in (["id"], ["id", "id"]):
+                    o = observe(iface, wrap(iface, build_inner(), stack))
+                    ctx.count()
+                    case = {"inner": "stream raising after %d chunk(s)" % k, "iface": iface, "stack": stack}
+                    def seen_by_client(x):      # (a failure before the first body byte is an error response either way)
+                        if x["exc"] and not x["body"]:
+                            return ("failed before any body byte", x["exc"])
+                        return (x["status"], sorted(h for h in x["headers"] if h[0] != "x-mw"), x["body"], x["exc"])
+                    same = seen_by_client(o) == seen_by_client(bare)
+                    if not same:
+                        ctx.violation(case, {"status": bare["status"], "body": bare["body"].decode(), "exc": bare["exc"]},
+                                      {"status": o["status"], "body": o["body"].decode(), "exc": o["exc"]},
+                                      "an inner stream that fails after it started is not the same (partial) response under a middleware")
+                    ctx.nontriv(("late-error", iface, k, tuple(stack)))
         # the view decorator
         for iface in ("wsgi", "asgi"):
             pkg = recipes.pkg(iface)
